@@ -245,10 +245,13 @@ func (in *Interp) convert(v Value, from, to types.Type) Value {
 				}
 				return term.ZExt(t, ts.W)
 			case fs.K == term.KBV && ts.K == term.KFP:
+				// (opt-in: "execute": ["conv:narrow"] - the narrowed and the plain form of one
+				// source expression are different terms, which costs harnesses that compare a
+				// reference float expression with the code's bit for bit)
 				// a value the range facts place in [0, 2^k) with k well below the
 				// source width is converted from its low k+1 bits (unsigned): the same
 				// float, a much smaller circuit for the solver
-				if fs.W > 32 && !t.IsConst() {
+				if fs.W > 32 && !t.IsConst() && in.convNarrowEnabled() {
 					ia := in.Eng.abs.iv(t)
 					if ia.lo >= 0 && ia.hi >= 0 && ia.hi < 1<<40 {
 						k := 1
